@@ -104,8 +104,15 @@ def _worker(seeds):
                 others = [rand_name(rng) for _ in range(rng.randint(0, 3))]
                 lst = others[:]
                 lst.insert(rng.randint(0, len(lst)), b)
-                if ca.matches(lst) != any(ca.matches(x) for x in lst) or ca.matches(tuple(others)) != any(ca.matches(x) for x in others):
+                want = any(ca.matches(x) for x in lst)
+                if ca.matches(lst) != want or ca.matches(tuple(others)) != any(ca.matches(x) for x in others):
                     fail = "iterable result differs from 'some element matches'"
+                else:
+                    for kind, it in (("set", set(lst)), ("frozenset", frozenset(lst)), ("iterator", iter(lst)), ("generator", (x for x in lst)),
+                                     ("dict keys", dict.fromkeys(lst).keys()), ("dict", dict.fromkeys(lst))):
+                        if ca.matches(it) != want:
+                            fail = "a %s of names gives %r, 'some element matches' is %r: %r" % (kind, not want, want, lst)
+                            break
         except Exception as e:
             res, sa, sb = None, a, b
             fail = "exception %r" % (e,)
@@ -116,6 +123,7 @@ def _worker(seeds):
 
 def run(tier, seed):
     c = vlib.Check("C20", tier, seed, "proof")
+    vlib.pure_python_parser()
     c.prove("C20.v")
     n = 30000 if tier == "quick" else 1500000
     seeds = [seed * 2000003 + i for i in range(n)]
